@@ -10,7 +10,14 @@ import xcp
 MODES_CORE = [0o644, 0o600, 0o755, 0o000, 0o777, 0o444, 0o4755, 0o2755, 0o6755, 0o1777, 0o7777, 0o4000, 0o2000, 0o1000,
               0o2644, 0o6644, 0o4711, 0o2070, 0o001, 0o002, 0o004, 0o010, 0o020, 0o040, 0o100, 0o200, 0o400]
 MTIMES = [1_000_000_000_123_456_789, 946_684_800_000_000_001, 4_102_444_800_500_000_000, 1, 1_700_000_000_999_999_999,
-          86_400_000_000_000]
+          86_400_000_000_000,
+          # the epoch itself and times BEFORE it (negative seconds, with and without a nanosecond part), back to 1901
+          0, -1, -500_000_000, -14_182_940_000_000_000, -2_000_000_000_000_000_000 + 123]
+
+
+def u64(v):
+    """times before the epoch are negative: the model carries a time as an opaque natural number"""
+    return v if v >= 0 else (1 << 64) + v
 XATTRS = [{}, {"user.a": b"1"}, {"user.comment": b"hello world", "user.empty": b"", "user.bin": bytes(range(256))}]
 IDS = [(0, 0), (1000, 1000), (1234, 42), (65534, 65534), (0, 7)]
 
@@ -24,7 +31,7 @@ def run(ctx, out):
     quick = ctx.tier == "quick"
     sup = core.build_sup()
     d0 = ctx.work.fresh("c10")
-    out.rule = ("single regular files (dense, and sparse with a hole in the middle / at the end / all hole): modes covering all 12 permission bits (thorough: all 4096), mtimes past/future/sub-second, "
+    out.rule = ("single regular files (dense, and sparse with a hole in the middle / at the end / all hole): modes covering all 12 permission bits (thorough: all 4096), mtimes past/future/sub-second/the epoch/before 1970 back to 1906, "
                 "user xattr sets, uid/gid pairs (root), every combination of --no-perms/--no-timestamps/--ownership(/--fsync), "
                 "fresh and pre-existing destinations (other mode/owner/xattrs), both drivers, multi-block files with 4 workers "
                 "under random thread holds; plus trees of 8 files in which ONE best-effort xattr call is refused: every other file "
@@ -78,6 +85,7 @@ def run(ctx, out):
         os.chown(src, *c["ids"])
         os.chmod(src, c["mode"])
         os.utime(src, ns=(c["mtime"] - 5, c["mtime"]))
+        c["mtime"] = os.stat(src).st_mtime_ns       # what the file system stored (it may clamp times outside its range)
         dst_prior = None
         if c["prior"] is not None:
             open(dst, "wb").write(b"old" * 100)
@@ -142,7 +150,7 @@ def run(ctx, out):
         else:
             dmeta = [0o644, 0, 0, 0, 0, 0]
         minputs.append([int(np_), int(nt_), int(ow_), int("--fsync" in c["flags"]),
-                        c["mode"], c["ids"][0], c["ids"][1], 0, c["mtime"], len(sx) // 2] + sx + dmeta)
+                        c["mode"], c["ids"][0], c["ids"][1], 0, u64(c["mtime"]), len(sx) // 2] + sx + dmeta)
         acts = []
         for kind, e in xcp.file_events(run_, dst):
             if kind == "chown":
@@ -160,7 +168,7 @@ def run(ctx, out):
         first_meta = next((i for i, (kk, _) in enumerate(fe) if kk in ("chown", "chmod", "utimens", "setxattr", "fsync")), None)
         if first_meta is not None and any(kk == "data" and ee["x"] > fe[first_meta][1]["e"] for kk, ee in fe[first_meta:]):
             out.violation("metadata applied before the file's last write", rep)
-        obs.append((rep, acts, [dstst.st_mode & 0o7777, dstst.st_uid, dstst.st_gid, dstst.st_mtime_ns], nt_))
+        obs.append((rep, acts, [dstst.st_mode & 0o7777, dstst.st_uid, dstst.st_gid, u64(dstst.st_mtime_ns)], nt_))
         shutil.rmtree(d, ignore_errors=True)
     # ---- trees: what happened to ONE file's metadata says nothing about the next.  Eight files with distinct modes, mtimes,
     #      user xattrs (and owners), both drivers, 1 / 4 workers; the supervisor refuses one best-effort call (an xattr call
